@@ -90,44 +90,145 @@ def split_select(sql, n):
     return parts if len(parts) == n else None
 
 
-def compile_batch(exprs, dialect):
-    """[(sql text of the expression | None, whole-statement sql | None, error | None)] for each PRQL expression text"""
+# ---------------------------------------------------------------- RQ view of the `verif:preprocess` hook (pass "normalize")
+
+class RqUnmodelled(Exception):
+    pass
+
+
+HOOK_MISSING = "HOOK-MISSING"
+
+
+def rq_text(e, colmap):
+    """canonical text of the hook's JSON view of an rq::Expr -- the python side of Model/C02Probe.v rq_ser"""
+    if "col" in e:
+        if e["col"] not in colmap:
+            raise RqUnmodelled("column %r" % e["col"])
+        return "c%d" % colmap[e["col"]]
+    if "lit" in e:
+        l = e["lit"]
+        if l == "null":
+            return "null"
+        if "int" in l:
+            return "i%d" % l["int"]
+        if "bool" in l:
+            return "true" if l["bool"] else "false"
+        o = l.get("other", "")
+        m = re.fullmatch(r"Float\((.*)\)", o)
+        if m:
+            return "f" + m.group(1)
+        m = re.fullmatch(r'String\("([^"\\\']*)"\)', o)
+        if m:
+            return "s'" + m.group(1) + "'"
+        raise RqUnmodelled("literal %r" % (l,))
+    if "op" in e:
+        return e["op"] + "(" + ";".join(rq_text(a, colmap) for a in e["args"]) + ")"
+    if "case" in e:
+        return "case(" + ";".join(rq_text(a, colmap) for a in e["case"]) + ")"
+    raise RqUnmodelled("node %s" % sorted(e.keys()))
+
+
+def rq_of_answer(a, n, let=False):
+    """[(text before normalize, text after) | None] for the n select items of one compiled program, from the entries of
+    harness `log` (ReprRq: column names; verif:preprocess pass normalize: the RQ pipeline before / after).
+    HOOK_MISSING when the compile produced no such hook line."""
+    names = {}
+    norm = None
+    for en in a.get("entries", []):
+        if "ReprRq" in en:
+            try:
+                for st in en["ReprRq"]["relation"]["kind"]["Pipeline"]:
+                    if "From" in st:
+                        for col, cid in st["From"]["columns"]:
+                            if isinstance(col, dict) and "Single" in col and col["Single"] in ("a", "b", "c"):
+                                names[cid] = "abc".index(col["Single"])
+            except (KeyError, TypeError, ValueError):
+                pass
+        elif "Message" in en and en["Message"].startswith("verif:preprocess ") and en["Message"].endswith('"pass":"normalize"}'):
+            norm = json.loads(en["Message"][len("verif:preprocess "):])
+    if norm is None:
+        return [HOOK_MISSING] * n
+    out = []
+    try:
+        pin, pout = norm["in"]["pipeline"], norm["out"]["pipeline"]
+        sel = [t for t in pin if t.get("kind") == "Select"][-1]["cids"]
+        if len(sel) != n or len(pin) != len(pout):
+            return [None] * n
+        cin = {t["compute"]["id"]: t["compute"]["expr"] for t in pin if t.get("kind") == "Compute"}
+        cout = {t["compute"]["id"]: t["compute"]["expr"] for t in pout if t.get("kind") == "Compute"}
+        colmap = dict(names)
+        extra = [c for c in cin if c not in sel]
+        if let:
+            if len(extra) != 1:
+                return [None] * (n + 1)
+            colmap[extra[0]] = 3
+            sel = [extra[0]] + list(sel)
+        elif extra:
+            return [None] * n
+        for cid in sel:
+            try:
+                if cid in cin:
+                    out.append((rq_text(cin[cid], colmap), rq_text(cout[cid], colmap)))
+                else:
+                    out.append((rq_text({"col": cid}, colmap),) * 2)
+            except RqUnmodelled:
+                out.append(None)
+    except (KeyError, IndexError, TypeError):
+        return [None] * (n + (1 if let else 0))
+    return out
+
+
+def compile_batch(exprs, dialect, rq=None):
+    """[(sql text of the expression | None, whole-statement sql | None, error | None)] for each PRQL expression text.
+    With rq (a list of len(exprs)): compile through harness `log` and store each expression's RQ view in it."""
     out = [None] * len(exprs)
     B = 12
     reqs, spans = [], []
+    cmd = "compile" if rq is None else "log"
+    extra = {} if rq is None else {"want": ["ReprRq"], "msg_prefix": "verif:preprocess"}
     for i in range(0, len(exprs), B):
         ch = exprs[i:i + B]
-        reqs.append({"src": "from t | select {" + ", ".join("v%d = %s" % (k, e) for k, e in enumerate(ch)) + "}",
-                     "target": "sql." + dialect, "format": False, "sig": False})
+        reqs.append(dict({"src": "from t | select {" + ", ".join("v%d = %s" % (k, e) for k, e in enumerate(ch)) + "}",
+                          "target": "sql." + dialect, "format": False, "sig": False}, **extra))
         spans.append((i, len(ch)))
-    ans = harness("compile", reqs)
+    ans = harness(cmd, reqs)
     retry = []
     for (i, n), a in zip(spans, ans):
         parts = split_select(a["ok"], n) if "ok" in a else None
         if parts is None:
             retry += list(range(i, i + n))
         else:
+            r = rq_of_answer(a, n) if rq is not None else None
             for k, p in enumerate(parts):
                 out[i + k] = (p, None)
+                if rq is not None:
+                    rq[i + k] = r[k]
     if retry:
-        reqs = [{"src": "from t | select {v0 = %s}" % exprs[i], "target": "sql." + dialect, "format": False, "sig": False} for i in retry]
-        for i, a in zip(retry, harness("compile", reqs)):
+        reqs = [dict({"src": "from t | select {v0 = %s}" % exprs[i], "target": "sql." + dialect, "format": False, "sig": False}, **extra) for i in retry]
+        for i, a in zip(retry, harness(cmd, reqs)):
             if "ok" in a:
                 parts = split_select(a["ok"], 1)
                 out[i] = (parts[0] if parts else None, a["ok"]) if parts else (None, a["ok"])
+                if rq is not None:
+                    rq[i] = rq_of_answer(a, 1)[0]
             else:
                 out[i] = ("ERR", a)
     return out
 
 
-def compile_programs(progs, dialect):
-    """whole programs `... | select {v0 = e}`: [(expression text | None | 'ERR', statement | error)]"""
+def compile_programs(progs, dialect, rq=None):
+    """whole programs `... | derive {d = e1} | select {v0 = e}`: [(expression text | None | 'ERR', statement | error)];
+    with rq: rq[i] = [(d before, d after), (v0 before, v0 after)] from the hook"""
     out = []
-    reqs = [{"src": p, "target": "sql." + dialect, "format": False, "sig": False} for p in progs]
-    for a in harness("compile", reqs):
+    cmd = "compile" if rq is None else "log"
+    extra = {} if rq is None else {"want": ["ReprRq"], "msg_prefix": "verif:preprocess"}
+    reqs = [dict({"src": p, "target": "sql." + dialect, "format": False, "sig": False}, **extra) for p in progs]
+    for i, a in enumerate(harness(cmd, reqs)):
         if "ok" in a:
             parts = split_select(a["ok"], 1)
             out.append((parts[0], a["ok"]) if parts else (None, a["ok"]))
+            if rq is not None:
+                rq[i] = rq_of_answer(a, 1, let=True)
         else:
             out.append(("ERR", a))
     return out
